@@ -138,8 +138,11 @@ impl Property for C01 {
     fn id(&self) -> &'static str {
         "C01"
     }
+    fn regimes(&self) -> &'static str {
+        crate::gen::REGIMES_CATALOGUE
+    }
     fn rule(&self) -> String {
-        "proptest: ModelSpec (catalogue terms, shared parameters, exact duplicates, exact and near parameter collisions) x tame alpha x random Y (N x S) x weight class x epsilon class x {f32,f64} x {builder,hand} x {seq,par} x {srhs,mrhs}; states visited at construction, after caller updates and at every alpha of an LM run (probe). Oracle: truncated normal equations, minimum norm, forward comparison with an independent f64 Jacobi-SVD pseudo-inverse (kappa-gated), linearity in Y. Non-trivial: N > M, |r| > 1e-6 |W Y| at some visited state and the rank class is not ambiguous; distinct = distinct case fingerprints".into()
+        "proptest: ModelSpec (catalogue terms, shared parameters, exact duplicates, exact and near parameter collisions) x tame alpha x random Y (N x S) x weight class x epsilon class x {f32,f64} x {builder,hand} x {seq,par} x {srhs,mrhs}; states visited at construction, after caller updates and at every alpha of an LM run (probe). Oracle: truncated normal equations, minimum norm, forward comparison with an independent f64 Jacobi-SVD pseudo-inverse (kappa-gated), linearity in Y. Non-trivial: N > M, |r| > 1e-6 |W Y| at some visited state and the rank class is not ambiguous; distinct = distinct case fingerprints One case in eight carries a complex-valued companion problem (damped complex oscillations built with SeparableModelBuilder<Complex<f64>>, complex weights, all four constructors, caller updates): normal equations and forward comparison on the real embedding, with the harness' real Jacobi SVD applied to [Re A, -Im A; Im A, Re A].".into()
     }
     fn assumptions(&self) -> Vec<String> {
         vec![
